@@ -445,6 +445,23 @@ def run_mask(ctx, case, J):
     floor = 1e-4 * float(np.max(absdense(t) * absdense(m)[idx]))
     J.check("mask", "mask(t %s, mask %s)" % (list(t.shape), list(m.shape)), lambda: tn.mask(t.to_tn(), m.to_tn()), tensor_verify(exp, 1e-9, floor),
             [("mask smaller than the tensor along a mode", smaller), ("1 mode, CP core or Tucker factor", _special1(t, m))])
+    # a second, full-size mask applied to the SAME tensor object (and to a clone of it) after the first call: masking is a pure
+    # function of (t, mask), whatever was masked before
+    import random as _r
+    import zlib as _z
+    m2 = gen_tensor(_r.Random(_z.crc32(repr(case["t"]["cores"]).encode())), list(t.shape), rmax=2, stream="int")
+    exp2 = x * m2.dense()
+
+    def twice():
+        tt = t.to_tn()
+        tn.mask(tt, m.to_tn())
+        return tn.mask(tt, m2.to_tn()), tn.mask(tt.clone(), m2.to_tn())
+
+    def verify2(rs):
+        v = tensor_verify(exp2, 1e-9, 1e-4 * float(np.max(absdense(t) * absdense(m2))))
+        return v(rs[0]) or v(rs[1])
+    J.check("mask", "mask(t, full-size mask) after mask(t %s, mask %s) on the same tensor" % (list(t.shape), list(m.shape)), twice, verify2,
+            [("a second mask on a tensor that was masked before", True)])
 
 
 def run_reduce(ctx, case, J):
